@@ -10,6 +10,7 @@ mod ra;
 mod rv;
 mod sd;
 mod tp;
+mod tps;
 mod rp;
 mod util;
 
@@ -94,6 +95,7 @@ fn main() {
             "pl" => pl::run_case(&mut servers, &f),
             "ra" => ra::run_case(&mut servers, &f),
             "tp" => tp::run_case(&f),
+            "tps" => tps::run_case(&f),
             "bs" => bs::run_case(&f),
             "sd" => sd::run_case(&f),
             "rv" => rv::run_case(&f),
